@@ -11,6 +11,7 @@
 -/
 import SSEPyVerif.Model.Schemes.Wire
 import SSEPyVerif.Proofs.Schemes.ChainCfg
+import SSEPyVerif.Proofs.Schemes.ANSS16Shape
 namespace SSEPy.C03
 open SSEPy.Sch
 
@@ -80,5 +81,129 @@ theorem PiBas.token_roundtrip (raw : RawCfg) (cfg : ChainCfg) (hcfg : PiBas.cfgB
       apply wire_roundtrip
       have : lam.toNat = K1.length := by omega
       simp [ChainCfg.wire, this, lb, la]
+
+/-! ### generated keys and tokens of the other schemes have the widths their parsers cut at -/
+
+theorem takeBytesN_lens (n k : Nat) (t t' : Tape) (bs : List Bytes) (h : takeBytesN n k t = .ok (bs, t')) :
+    bs.map (·.length) = List.replicate k n := by
+  obtain ⟨h1, h2⟩ := ANSS16.takeBytesN_spec n k t t' bs h
+  apply List.eq_replicate_iff.mpr
+  refine ⟨by simp [h1], ?_⟩
+  intro x hx
+  simp only [List.mem_map] at hx
+  obtain ⟨b, hb, rfl⟩ := hx
+  exact h2 b hb
+
+/-- ANSS16: a generated key has `param_lambda` bytes and is what the key parser accepts (the parser compared with
+    `param_k` before commit 0c28862) -/
+theorem ANSS16.key_roundtrip (cfg : ANSSCfg) (t t' : Tape) (K : Bytes) (h : ANSS16.keyGen cfg t = .ok (K, t')) :
+    wireDeser cfg.wire.key (wireSer [K]) = .ok [K] := by
+  apply wire_roundtrip
+  unfold ANSS16.keyGen at h
+  split at h
+  · cases h
+  · simp [ANSSCfg.wire, Chain.takeBytes_len h]
+
+/-- ANSS16: every token `_Trap` produces has the four widths `[l, k, l', k']` of the token parser -/
+theorem ANSS16.token_roundtrip (cfg : ANSSCfg) (lv : Leaves) (K w : Bytes) (tk : ANSSToken)
+    (h : ANSS16.token cfg lv K w = .ok tk) :
+    wireDeser (cfg.wire.token.getD []) (wireSer [tk.li, tk.Ki, tk.liP, tk.KiP]) = .ok [tk.li, tk.Ki, tk.liP, tk.KiP] := by
+  apply wire_roundtrip
+  simp only [ANSS16.token, bind, Except.bind] at h
+  split at h
+  · cases h
+  · rename_i x hx
+    split at h
+    · cases h
+    · rename_i pieces hp
+      split at h
+      · rename_i a b c d
+        simp only [pure, Except.pure] at h
+        cases h
+        obtain ⟨h1, h2, h3, h4⟩ := ANSS16.split4_lengths x _ _ _ _ a b c d hp
+        simp [ANSSCfg.wire, h1, h2, h3, h4]
+      · simp [throw, throwThe, MonadExceptOf.throw] at h
+
+theorem CT14.key_roundtrip (cfg : CT14Cfg) (t t' : Tape) (K : Bytes) (h : CT14.keyGen cfg t = .ok (K, t')) :
+    wireDeser cfg.wire.key (wireSer [K]) = .ok [K] := by
+  apply wire_roundtrip
+  unfold CT14.keyGen at h
+  split at h
+  · cases h
+  · simp [CT14Cfg.wire, Chain.takeBytes_len h]
+
+/-- CT14: a token is `F(K, w)` cut at `param_k`; with a PRF output of `k + k'` bytes (what an accepted configuration
+    declares) the two parts have the parser's widths -/
+theorem CT14.token_roundtrip (cfg : CT14Cfg) (lv : Leaves) (hl : LeafLaws lv) (hk : 0 ≤ cfg.k) (hk' : 0 ≤ cfg.kPrime)
+    (hout : cfg.prfF.outputLength = cfg.k + cfg.kPrime) (hh : cfg.prfF.hashLen = 20) (K w K0 K1 : Bytes)
+    (h : CT14.token cfg lv K w = .ok (K0, K1)) :
+    wireDeser (cfg.wire.token.getD []) (wireSer [K0, K1]) = .ok [K0, K1] := by
+  apply wire_roundtrip
+  simp only [CT14.token, bind, Except.bind] at h
+  split at h
+  · cases h
+  · rename_i x hx
+    simp only [pure, Except.pure] at h
+    cases h
+    have hxl := (prf_ok cfg.prfF lv.hmac (by rw [hh]; exact hl.hmac_len) (by rw [hh]; decide) K w x hx).1
+    rw [hout] at hxl
+    simp only [CT14Cfg.wire, Option.getD_some, List.map_cons, List.map_nil, List.length_take, List.length_drop, hxl]
+    have : (cfg.k + cfg.kPrime).toNat = cfg.k.toNat + cfg.kPrime.toNat := by omega
+    rw [this]
+    simp
+
+theorem PiPtr.key_roundtrip (cfg : PiPtrCfg) (t t' : Tape) (K : Bytes) (h : PiPtr.keyGen cfg t = .ok (K, t')) :
+    wireDeser cfg.wire.key (wireSer [K]) = .ok [K] := by
+  apply wire_roundtrip
+  unfold PiPtr.keyGen at h
+  split at h
+  · cases h
+  · simp [PiPtrCfg.wire, Chain.takeBytes_len h]
+
+theorem Pi2Lev.key_roundtrip (cfg : Pi2LevCfg) (t t' : Tape) (K : Bytes) (h : Pi2Lev.keyGen cfg t = .ok (K, t')) :
+    wireDeser cfg.wire.key (wireSer [K]) = .ok [K] := by
+  apply wire_roundtrip
+  unfold Pi2Lev.keyGen at h
+  split at h
+  · cases h
+  · simp [Pi2LevCfg.wire, Chain.takeBytes_len h]
+
+/-- SSE-1: the four generated keys have `param_k` bytes each -/
+theorem SSE1.key_roundtrip (cfg : SSE1Cfg) (t t' : Tape) (Ks : List Bytes) (h : SSE1.keyGen cfg t = .ok (Ks, t')) :
+    wireDeser cfg.wire.key (wireSer Ks) = .ok Ks := by
+  apply wire_roundtrip
+  unfold SSE1.keyGen at h
+  split at h
+  · cases h
+  · exact takeBytesN_lens _ _ _ _ _ h
+
+/-- DP17: the three generated keys have `param_lambda` bytes each -/
+theorem DP17.key_roundtrip (cfg : DP17Cfg) (t t' : Tape) (Ks : List Bytes) (h : DP17.keyGen cfg t = .ok (Ks, t')) :
+    wireDeser cfg.wire.key (wireSer Ks) = .ok Ks := by
+  apply wire_roundtrip
+  unfold DP17.keyGen at h
+  split at h
+  · cases h
+  · exact takeBytesN_lens _ _ _ _ _ h
+
+theorem SSE2.key_roundtrip (cfg : SSE2Cfg) (t t' : Tape) (a b : Bytes) (h : SSE2.keyGen cfg t = .ok (a, b, t')) :
+    wireDeser cfg.wire.key (wireSer [a, b]) = .ok [a, b] := by
+  apply wire_roundtrip
+  simp only [SSE2.keyGen, bind, Except.bind] at h
+  split at h
+  · simp [throw, throwThe, MonadExceptOf.throw] at h
+  · simp only [pure, Except.pure] at h
+    split at h
+    · cases h
+    · rename_i r1 h1
+      obtain ⟨a', t1⟩ := r1
+      simp only at h
+      split at h
+      · cases h
+      · rename_i r2 h2
+        obtain ⟨b', t2⟩ := r2
+        simp only at h
+        cases h
+        simp [SSE2Cfg.wire, Chain.takeBytes_len h1, Chain.takeBytes_len h2]
 
 end SSEPy.C03
